@@ -173,7 +173,7 @@ CLAIMS = {
         note='The translator as a whole (monad dispatch, joins, subqueries, aggregates, row decoding, hybrid methods) is out of reach of per-function contracts: only BOUNDED (never counted as proved) on real SQLite: '
              '~115 row conditions against a 3VL reference interpreter, ~35 whole queries with hand-written Python equivalents, ~215 generated aggregate conditions (sum / min / max / avg / count over collections, '
              'attribute path and generator form, with and without the JOIN() hint), ~120 date / datetime expressions (parts, comparisons, +/- timedelta as constant and parameter, differences) exact to the microsecond, '
-             '~80 conditions and projections through references that are parts of composite keys. '
+             '~80 conditions and projections through references that are parts of composite keys, 40 conditions over Decimal attributes with Decimal parameters. '
              'Trusted: the 3VL evaluator; strings represented by their length; monad.nullable accurate.'),
     'C02': dict(
         text='PARTIAL, derived: the dialect-quantified contracts of C01 (truth tests), C06 (string literals per value class, LIKE escape per dialect, MOD), C24 (LIMIT without bound per dialect) '
